@@ -5,6 +5,8 @@ mod check;
 mod corpus;
 mod e1;
 mod e1props;
+mod e3;
+mod e3props;
 mod expander;
 mod proj;
 mod gen;
